@@ -35,6 +35,10 @@ impl<'a, T: DDNNFPtr<'a>> IteTable<'a, T> for AllIteTable<T> {
     fn get(&self, ite: Ite<T>, _hash: u64) -> Option<T> {
         match ite {
             Ite::IteChoice { f, g, h } | Ite::IteComplChoice { f, g, h } => {
+                #[cfg(rsdd_verif)]
+                if crate::verif::buggify(crate::verif::Site::IteCacheForget) {
+                    return None;
+                }
                 let r = self.table.get(&(f, g, h));
                 let compl = ite.is_compl_choice();
                 if compl {
